@@ -40,7 +40,20 @@ SOptsFor(t) == IF HasObjS(t)
 
 \* values of T: typed images of the conforming data (deserialized with default options)
 Ctx0 == Ctx(Opt(FALSE, FALSE, FALSE, "id"))
-ValuesFor(t) == {RD(Ctx0, t, <<>>, x).v : x \in {y \in DataFor(Ctx0, t) : RD(Ctx0, t, <<>>, y).ok /\ ~IsUnspec(RD(Ctx0, t, <<>>, y))}}
+BaseValuesFor(t) == {RD(Ctx0, t, <<>>, x).v : x \in {y \in DataFor(Ctx0, t) : RD(Ctx0, t, <<>>, y).ok /\ ~IsUnspec(RD(Ctx0, t, <<>>, y))}}
+\* a TypedDict value is a plain dict: it may hold keys that are not declared -- an unrelated one, and one
+\* equal to the EXTERNAL name (under either aliaser) of a declared key (the declared key wins)
+TDExtras(t) ==
+  IF t.k = "obj" /\ UClasses[t.cls].kind = "typeddict"
+  THEN LET fs == UClasses[t.cls].fields
+           names == {fs[i].name : i \in DOMAIN fs}
+           \* the external names of the declared keys PRESENT in the value (an undeclared key spelt like the external
+           \* name of an absent key would simply be a value that is not of the type)
+           exts(bv) == {Ext(Ctx(Opt(FALSE, FALSE, FALSE, al)), fs[i]) : i \in {j \in DOMAIN fs : HasKey(bv.o, DStr(fs[j].name))},
+                                                                          al \in {"id", "upper"}} \ names
+       IN UNION {{VDict(bv.o \o << <<DStr(n), DStr("x")>> >>) : n \in exts(bv) \cup {"zz"}} : bv \in {w \in BaseValuesFor(t) : w.k = "dict"}}
+  ELSE {}
+ValuesFor(t) == BaseValuesFor(t) \cup TDExtras(t)
 
 \* the bijective fragment of C05: no asymmetric skip, no serialized method, no field dropped
 \* from the constructor, no type whose images are ambiguous
@@ -148,7 +161,8 @@ AnyEqTyped == (phase = "done" /\ T.k = "obj" /\ v.k = "inst" /\ ~HasSErr(res)) =
 \* exclude_none is outside the property (it quantifies over aliasers and additional_properties):
 \* a REQUIRED Optional field dropped by exclude_none cannot come back (class OR)
 RoundTrip ==
-  (phase = "done" /\ Bijective(T, {}) /\ ~HasSErr(res) /\ ~O.exn) =>
+  \* ... and so are TypedDict values holding undeclared keys (dropped, or shadowed by a declared key)
+  (phase = "done" /\ Bijective(T, {}) /\ ~HasSErr(res) /\ ~O.exn /\ v \notin TDExtras(T)) =>
      LET back == RD(Ctx(O), T, <<>>, AsData(res)) IN
        IsUnspec(back) \/ (back.ok /\ ImageEq(Ctx(O), T, v, back.v))
 =============================================================================
